@@ -69,6 +69,8 @@ func runConjoinHistory(c *rig.Ctx, label string, r *rand.Rand, natural bool) (re
 		return h
 	}
 	hA, hB := open(), open()
+	// only A conjoins: the hook drives B, and a conjoin of B's own would re-enter B from inside B's lock
+	hB.(*nbs.NomsBlockStore).DisableConjoin()
 	defer func() { hB.Close(); hA.Close() }()
 	model := newSharedModel()
 	rec := &recorder{}
@@ -98,7 +100,9 @@ func runConjoinHistory(c *rig.Ctx, label string, r *rand.Rand, natural bool) (re
 	var bmu sync.Mutex
 	foreignDone := false
 	verifhook.Set("conjoin.beforeManifest", verifhook.Action{Kind: "func", Fn: func(_ string, hit int64) error {
-		bmu.Lock()
+		if !bmu.TryLock() {
+			return nil // not A's conjoin (or the main goroutine is driving B): never block inside a store's lock
+		}
 		defer bmu.Unlock()
 		cs.hookHits++
 		if foreignDone {
